@@ -189,6 +189,10 @@ def cases(tier):
         for n in ns_rand:
             cs.append(domain_case(name, mk, info, "random", n, kb, True))
         cs.append(domain_case(name, mk, info, "grid", ns_grid[-1], kb, True))
+    # smallest counts of the sphere surface lattice (n-1 appears in a denominator)
+    sph = ("Sphere", (lambda env: SH.sphere(env)), dict(kind="Sphere", fam="prim"))
+    for n in (1, 2):
+        cs.append(domain_case(sph[0], sph[1], sph[2], "grid", n, 0, True))
     # point samplers over a few representative shapes
     reps = [c for c in cat if c[0] in ("Interval", "Circle", "Parallelogram", "Circle[t]", "(Circle-Parallelogram)")]
     for name, mk, info in reps:
